@@ -8,3 +8,6 @@ Definition gen_switch_in_success : bool := true.
 
 (* _cffi_initialize_python: (the success exit, the error exit) passes PyGILState_Release(state) *)
 Definition gen_init_exits : bool * bool := (true, true).
+
+(* _cffi_acquire_reentrant_mutex: the CAS guard is released before pthread_mutex_lock *)
+Definition gen_guard_released_before_lock : bool := true.
